@@ -1,5 +1,6 @@
 #include "FileReader.h"
 #include "SliceReader.h"
+#include "VerifTrace.h"
 #include <stdexcept>
 
 namespace OP2Utility::Stream
@@ -31,6 +32,7 @@ namespace OP2Utility::Stream
 	}
 
 	void FileReader::ReadImplementation(void* buffer, std::size_t size) {
+		OP2UTILITY_VERIF_SCOPE("file", "Read", size, 0);
 		file.read(static_cast<char*>(buffer), size);
 		// Check stream flags for errors
 		if (!file) {
@@ -43,6 +45,7 @@ namespace OP2Utility::Stream
 	}
 
 	std::size_t FileReader::ReadPartial(void* buffer, std::size_t size) noexcept {
+		OP2UTILITY_VERIF_SCOPE("file", "ReadPartial", size, 0);
 		file.read(static_cast<char*>(buffer), size);
 		// Note: number of unformatted bytes read, up to size, must fit within a size_t
 		auto bytesRead = static_cast<std::size_t>(file.gcount());
@@ -66,11 +69,13 @@ namespace OP2Utility::Stream
 	}
 
 	void FileReader::Seek(uint64_t position) {
+		OP2UTILITY_VERIF_SCOPE("file", "Seek", position, 0);
 		file.seekg(position);
 	}
 
 	void FileReader::SeekForward(uint64_t offset) 
 	{
+		OP2UTILITY_VERIF_SCOPE("file", "SeekForward", offset, 0);
 		uint64_t newPosition = Position() + offset;
 
 		if (newPosition < Position()) {
@@ -82,6 +87,7 @@ namespace OP2Utility::Stream
 
 	void FileReader::SeekBackward(uint64_t offset)
 	{
+		OP2UTILITY_VERIF_SCOPE("file", "SeekBackward", offset, 0);
 		if (offset > Position()) {
 			throw std::runtime_error("Change in offset puts read position before beginning bounds of file " + filename);
 		}
@@ -91,6 +97,7 @@ namespace OP2Utility::Stream
 
 	FileSliceReader FileReader::Slice(uint64_t sliceLength)
 	{
+		OP2UTILITY_VERIF_SCOPE("file", "SliceHere", sliceLength, 0);
 		FileSliceReader slice = Slice(Position(), sliceLength);
 
 		// Wait until slice is successfully created before seeking forward.
@@ -100,6 +107,7 @@ namespace OP2Utility::Stream
 	}
 
 	FileSliceReader FileReader::Slice(uint64_t sliceStartPosition, uint64_t sliceLength) const {
+		OP2UTILITY_VERIF_SCOPE("file", "SliceAt", sliceStartPosition, sliceLength);
 		return FileSliceReader(filename, sliceStartPosition, sliceLength);
 	}
 }
